@@ -15,7 +15,7 @@ def run(ctx):
     src = re.sub(r"MaxDepth = \d+", f"MaxDepth = {4 if thorough else 3}", src)
     cfg = os.path.join(ctx.scratch, "MultiDeviceMC_v.cfg")
     open(cfg, "w").write(src)
-    res = ctx.tlc(os.path.join(IR, "MultiDeviceMC.tla"), cfg, tag="mc-md", timeout=6000)
+    res = ctx.tlc(os.path.join(IR, "MultiDeviceMC.tla"), cfg, tag="mc-md", timeout=6000, heap="28g" if thorough else "8g")
     if not res.ok:
         raise MachineryError(f"design spec check failed: {res.violated} {res.errors[:2]}\n{res.tail(25)}")
     findings, stats, kinds = irmd.replay_file(res.out_path, nproc=NCPU)
@@ -25,7 +25,7 @@ def run(ctx):
     # nested configuration: the second node lives in the body of the first one and captures values of the main graph
     cfgn = os.path.join(ctx.scratch, "MultiDeviceMC_nested.cfg")
     open(cfgn, "w").write(re.sub(r"MaxDepth = \d+", f"MaxDepth = {4 if thorough else 3}", src).replace("Nested = FALSE", "Nested = TRUE"))
-    resn = ctx.tlc(os.path.join(IR, "MultiDeviceMC.tla"), cfgn, tag="mc-md-nested", timeout=6000)
+    resn = ctx.tlc(os.path.join(IR, "MultiDeviceMC.tla"), cfgn, tag="mc-md-nested", timeout=6000, heap="28g" if thorough else "8g")
     if not resn.ok:
         raise MachineryError(f"design spec check failed (nested): {resn.violated} {resn.errors[:2]}\n{resn.tail(25)}")
     f2, st2, k2 = irmd.replay_file(resn.out_path, nproc=NCPU)
